@@ -19,6 +19,7 @@ mod c16;
 mod c17;
 mod c18;
 mod c19;
+mod c20;
 mod ctx;
 mod drv;
 mod gen;
@@ -56,6 +57,7 @@ fn dispatch_run(prop: &str, ctx: &mut Ctx) -> bool {
         "C17" => c17::run_all(ctx),
         "C18" => c18::run(ctx),
         "C19" => c19::run(ctx),
+        "C20" => c20::run(ctx),
         _ => return false,
     }
     true
@@ -82,6 +84,7 @@ fn dispatch_replay(prop: &str, ctx: &mut Ctx, scenario: &Value) -> Result<(), St
         "C17" => c17::replay(ctx, scenario),
         "C18" => c18::replay(ctx, scenario),
         "C19" => c19::replay(ctx, scenario),
+        "C20" => c20::replay(ctx, scenario),
         _ => Err(format!("no replay for {prop}")),
     }
 }
